@@ -6,11 +6,13 @@ import Driver.Pure
 import Driver.Dna
 import Driver.DynArr
 import Driver.StoreDrv
+import Driver.Acct
 
 open Jesse
 
 structure DState where
   da : Option Jesse.DynArray := none
+  acc : Option Jesse.Acc.World := none
 
 def step (s : DState) (line : String) : DState × String :=
   let toks := (line.trimAscii.toString.splitOn " ").filter (· ≠ "")
@@ -19,6 +21,7 @@ def step (s : DState) (line : String) : DState × String :=
   | "dna" :: args => (s, Driver.Dna.handle args)
   | "fa" :: args => (s, Driver.StoreDrv.handleFa args)
   | "st" :: args => (s, Driver.StoreDrv.handleSt args)
+  | "acc" :: args => let (d, o) := Driver.Acct.handle s.acc args; ({ s with acc := d }, o)
   | "da" :: args => let (d, o) := Driver.DynArr.handle s.da args; ({ s with da := d }, o)
   | [] => (s, "")
   | _ => (s, "bad-op")
